@@ -1875,9 +1875,13 @@ class MultiUserChannelMatrix:  # pylint: disable=R0902
             aux = np.dot(Ukl_H, np.dot(self.get_Hkl(k, k), Fkl))
             numerator = np.dot(aux, aux.transpose().conjugate())
             denominator = np.dot(Ukl_H, np.dot(Bkl_all_l[l], Ukl))
-            SINR_kl = numerator.item() / denominator.item()
-            # The imaginary part should be negligible
-            SINR_k[l] = np.abs(SINR_kl)
+            # The imaginary part should be negligible. Note that without
+            # noise an interference-free stream has a denominator equal to
+            # zero: report an infinite SINR (as the IA solvers do) instead
+            # of raising ZeroDivisionError.
+            with np.errstate(divide='ignore'):
+                SINR_k[l] = (np.abs(numerator[0, 0]) /
+                             np.abs(denominator[0, 0]))
 
         return SINR_k
 
@@ -1958,9 +1962,13 @@ class MultiUserChannelMatrix:  # pylint: disable=R0902
             aux = np.dot(Ukl_H, np.dot(Hk, Fkl))
             numerator = np.dot(aux, aux.transpose().conjugate())
             denominator = np.dot(Ukl_H, np.dot(Bkl_all_l[l], Ukl))
-            SINR_kl = numerator.item() / denominator.item()
-            # The imaginary part should be negligible
-            SINR_k[l] = np.abs(SINR_kl)
+            # The imaginary part should be negligible. Note that without
+            # noise an interference-free stream has a denominator equal to
+            # zero: report an infinite SINR (as the IA solvers do) instead
+            # of raising ZeroDivisionError.
+            with np.errstate(divide='ignore'):
+                SINR_k[l] = (np.abs(numerator[0, 0]) /
+                             np.abs(denominator[0, 0]))
 
         return SINR_k
 
